@@ -1,12 +1,11 @@
-SPECIFICATION Spec
+SPECIFICATION GenSpec
 CONSTANTS
   Procs = {"g1", "g2"}
   FastTypes = {"A", "Q"}
   SlowTypes = {"H"}
   QType = "Q"
   Sides = {"enc"}
-  Variant = "race"
+  Variant = "norace"
   MaxCalls = 1
   Deviations = {}
-
-INVARIANTS OwnProgram Export
+INVARIANTS OwnProgram SlotOwner Export
